@@ -554,6 +554,38 @@ func propC09(a *Analysis, r *Registry) {
 					continue
 				}
 				v = fc.Sub(v)
+				// with no non-zero weight there is no extreme: NaN must be among the values the
+				// result can take (the "not found" alternative of the scan)
+				hasNaN := func(v *RF) bool {
+					seenP := map[AtomID]bool{}
+					var dig func(v *RF, d int) bool
+					dig = func(v *RF, d int) bool {
+						if len(FindFn(v, "math.NaN")) > 0 {
+							return true
+						}
+						if d > 6 {
+							return false
+						}
+						for _, at := range v.Atoms(true) {
+							if ph, ok := X.phiOf[at.ID]; ok && !seenP[at.ID] {
+								seenP[at.ID] = true
+								vals, _ := X.phiFC[at.ID].Ctx.PhiLiveEdges(ph)
+								for _, pv := range vals {
+									if dig(X.phiFC[at.ID].Val(pv), d+1) {
+										return true
+									}
+								}
+							}
+						}
+						return false
+					}
+					return dig(v, 0) || dig(X.ExpandCalls(v), 0)
+				}
+				if hasNaN(v) {
+					r.OK(rB, construct+"/none→NaN", b.pos(fn), "NaN is the value when no weight is non-zero")
+				} else {
+					r.Fail(rB, construct+"/none→NaN", b.pos(fn), "the result cannot be NaN: with every weight zero a value is reported as an extreme")
+				}
 				// a value merged at a loop's exits (taken at a break, or the initial value otherwise)
 				// stands for any of its alternatives
 				var idxs []*Atom
